@@ -26,7 +26,7 @@ func init() {
 		ID:    "C08",
 		Level: "exploration",
 		Rule: "each case fixes a source of 100-400 multi-chunk files (plus link groups, directories, small files) and a prior destination (mutated copy) and runs the real Send+Receive under S schedules drawn from stream capacity {0,1,2,8,64} x seeded per-operation delays/yields inside stream calls (the endpoint dwells inside SendMsg/RecvMsg so a missing lock becomes an observable overlap), source reads, hasher and notify callbacks x GOMAXPROCS {1,2,4,16}; the binary is built with the Go race detector (halt_on_error). Outcomes (dest snapshot, REQ set, notification set with digests) of all schedules of a case must be equal up to the hard-link exception; the overlap detector of the harness stream must stay silent. " +
-			"non-trivial = schedule run with >=100 content requests in flight; distinct by interleaving fingerprint (hash of the merged order of (endpoint, op, packet type, id) events)",
+			"non-trivial = schedule run with >=50 content requests; distinct by interleaving fingerprint (hash of the merged order of (endpoint, op, packet type, id) events)",
 		Assumptions: []string{"root", "schedules the Go runtime does not produce in the run are not covered; the race detector only sees executed paths", "built with -race: a race report terminates the child process and is reported with its log"},
 		Cases: func(tier string) int {
 			if tier == "thorough" {
@@ -37,7 +37,7 @@ func init() {
 		Batch:         6,
 		Par:           8,
 		CaseTimeout:   300 * 1e9,
-		MinNontrivial: func(tier string) int { return 30 },
+		MinNontrivial: func(tier string) int { return 20 },
 		Env:           []string{"GORACE=halt_on_error=1 history_size=3"},
 		Run:           c08Run,
 	})
@@ -84,7 +84,7 @@ func c08Case(seed uint64, caseNo int) (*tree.Tree, *tree.Tree) {
 	// most files differ (content requests), some are unchanged, some stale
 	for i := range prior.Entries {
 		e := &prior.Entries[i]
-		if e.Type == tree.File && e.LinkTo == "" && prior.GroupOf(e.Path) == "" && R.P(3, 4) {
+		if e.Type == tree.File && e.LinkTo == "" && prior.GroupOf(e.Path) == "" && R.P(7, 8) {
 			e.Mtime += 1000
 			if len(e.Data) > 10 {
 				e.Data = e.Data[:10]
@@ -212,7 +212,7 @@ func c08Run(c *core.Ctx) *core.Result {
 	r.AddSet("schedule_parameters", fmt.Sprintf("cap%d/p%d/%d/%d/%d", capn, procs, delayStream, delayRead, delayCb))
 	r.Count("content_requests_observed", int64(out.nreq))
 	r.FP = out.fp
-	r.Nontrivial = out.nreq >= 100
+	r.Nontrivial = out.nreq >= 50
 	for _, rs := range []*syncRes{res0, res} {
 		if ov := rs.Pair.Overlaps(); len(ov) > 0 {
 			r.ViolateD("stream-overlap", trunc(ov, 3), "%s: %d overlapping stream calls on one endpoint observed, first: %s", desc, len(ov), strings.SplitN(ov[0], "\n", 2)[0])
